@@ -463,7 +463,9 @@ class IndentAndNameChecker(BaseChecker):
                 ]:
                     # the prefix from menu is not required to propagate to the children
                     return
-                if not common_prefix.startswith(parent_prefix):
+                # the parent's prefix so far depends on the order of the entries: fold, then apply the length rule
+                self.prefix_stack[-1] = os.path.commonprefix([parent_prefix, common_prefix])
+                if len(self.prefix_stack[-1]) < self.min_prefix_length:
                     raise InputError(
                         self.path_in_idf,
                         line_number,
